@@ -74,6 +74,23 @@ pub proof fn lemma_whens_vals_step(ws: Seq<CaseStatementCondition>, i: int)
     ensures whens_vals(ws, (i + 1) as nat) == whens_vals(ws, i as nat) + cond_vals(ws[i].condition) + expr_vals(ws[i].result)
 {}
 
+// ---- window specifications: partition expressions, order items, then the frame's numeric offsets (start before end) ----
+pub uninterp spec fn u32_value(v: u32) -> Value;
+pub uninterp spec fn order_vals(o: OrderExpr) -> Seq<Value>;
+pub open spec fn orders_vals(os: Seq<OrderExpr>, n: nat) -> Seq<Value>
+    decreases n
+{ if n == 0 || n > os.len() { Seq::<Value>::empty() } else { orders_vals(os, (n - 1) as nat) + order_vals(os[n - 1]) } }
+pub open spec fn frame_vals(f: Frame) -> Seq<Value> {
+    match f { Frame::Preceding(v) => seq![u32_value(v)], Frame::Following(v) => seq![u32_value(v)], _ => Seq::<Value>::empty() }
+}
+pub open spec fn window_vals(w: WindowStatement) -> Seq<Value> {
+    exprs_vals(w.partition_by@, w.partition_by@.len()) + orders_vals(w.order_by@, w.order_by@.len())
+        + (match w.frame { Some(fc) => frame_vals(fc.start) + (match fc.end { Some(e) => frame_vals(e), None => Seq::<Value>::empty() }), None => Seq::<Value>::empty() })
+}
+// R-into (trusted): `v.into()` of a u32 is the Value of that u32 (macro-generated From<u32>, Kani harness full_rt_u32)
+#[verifier::external_body]
+fn vvalue_u32(v: u32) -> (r: Value) ensures r == u32_value(v) { unimplemented!() }
+
 // ---- shims --------------------------------------------------------------------------------------------------------
 // R-attr (trusted): #[derive(PartialEq)] on BinOper is structural equality
 #[verifier::external_body]
